@@ -106,6 +106,9 @@ type stats struct {
 	Observed       int64            // steps followed by observation
 	Recovery       map[string]int64 // how A came back after a broker-side timeout
 	FinalQuiescent int64            // observed states with no open transaction
+	Registered     int64            // Ar/Br steps executed (partition registered, nothing appended)
+	Zombie         int64            // Az steps executed (stale-epoch produce fenced)
+	EmptyAborts    int64            // aborts (producer or timeout) of transactions that had the partition registered and no data
 }
 
 func newStats() *stats {
@@ -124,6 +127,9 @@ func (s *stats) add(o *stats) {
 	s.Steps += o.Steps
 	s.Observed += o.Observed
 	s.FinalQuiescent += o.FinalQuiescent
+	s.Registered += o.Registered
+	s.Zombie += o.Zombie
+	s.EmptyAborts += o.EmptyAborts
 	for k, v := range o.ReadsByVariant {
 		s.ReadsByVariant[k] += v
 	}
@@ -138,6 +144,9 @@ type harness struct {
 	m       *model
 	prod    [3]*kgo.Client
 	stale   [2]bool // the broker aborted the client's transaction (timeout); the client does not know yet
+	restart [2]bool // the client's epoch was fenced while it was not in a transaction: restart it before its next use
+	rawPid  [2]int64
+	rawEpoch [2]int16
 	opened  [2]time.Time
 	pid     [3]int64
 	raw     *rawConn
@@ -237,13 +246,30 @@ func (h *harness) exec(s sym) {
 	h.step = h.m.step
 	a := h.m.apply(s)
 	h.st.Steps++
+	if a.end && a.kind != kClient && !a.commit {
+		h.st.EmptyAborts++
+	}
 	switch {
 	case s == sAt:
 		// Nothing but this sleep advances the clock past the timeout: the
 		// broker aborts A's transaction and bumps its epoch.
 		time.Sleep(time.Until(h.opened[pA].Add(timeoutA + time.Second)))
-		h.stale[pA] = true
+		if a.kind == kClient {
+			h.stale[pA] = true // the client still believes in its transaction
+		} else {
+			h.restart[pA] = true // the client's epoch is fenced and it has no transaction to abort: the application restarts it
+		}
 		h.logf("  step %d %s: slept past A's transaction timeout", h.step, symName[s])
+	case s == sAr || s == sBr:
+		h.register(s, a)
+	case s == sAz:
+		h.zombie(s, a)
+	case a.end && a.kind == kRaw:
+		err := h.raw.endTxn(txnID[a.prod], h.rawPid[a.prod], h.rawEpoch[a.prod], a.commit)
+		h.logf("  step %d %s: raw EndTxn v4(commit=%v) of the registered-only transaction = %v", h.step, symName[s], a.commit, err)
+		if err != nil {
+			h.violate("harness:end-transaction-failed", "", "%s raw EndTxn(commit=%v) of a registered-only transaction failed: %v", prodName[a.prod], a.commit, err)
+		}
 	case a.end:
 		cl := h.prod[a.prod]
 		ctx, cancel := opCtx()
@@ -262,51 +288,134 @@ func (h *harness) exec(s sym) {
 	}
 }
 
-func (h *harness) append(s sym, a applied) {
-	p := a.prod
+var txnID = [2]string{"txn-A", "txn-B"}
+
+// ready returns p's client outside of any transaction, after the recovery an
+// application performs when the broker ended the previous transaction behind
+// the client's back. path names how it came back ("" = nothing to recover).
+func (h *harness) ready(p int) (cl *kgo.Client, path string) {
 	if h.prod[p] == nil {
-		if h.prod[p] = h.newProducer(p); h.prod[p] == nil {
+		h.prod[p] = h.newProducer(p)
+		return h.prod[p], ""
+	}
+	cl = h.prod[p]
+	if p == pN {
+		return cl, ""
+	}
+	if h.restart[p] {
+		h.restart[p], h.stale[p] = false, false
+		return h.recreate(p, "its epoch was fenced by the timeout of a registered-only transaction"), "client-restarted-after-empty-timeout"
+	}
+	if !h.stale[p] {
+		return cl, ""
+	}
+	// The client still believes it is inside the transaction the broker
+	// aborted. Do what an application does: abort (twice, the documented
+	// retry), and if the client does not come back, restart it under the
+	// same transactional id.
+	h.stale[p] = false
+	path = "abort-ok"
+	ctx, cancel := opCtx()
+	err := cl.EndTransaction(ctx, kgo.TryAbort)
+	cancel()
+	h.logf("    %s: EndTransaction(abort) after the broker-side timeout = %v", prodName[p], err)
+	if err != nil {
+		path = "abort-retry-ok"
+		ctx, cancel = opCtx()
+		err = cl.EndTransaction(ctx, kgo.TryAbort)
+		cancel()
+		h.logf("    %s: second EndTransaction(abort) = %v", prodName[p], err)
+	}
+	if err != nil {
+		path = "client-restarted"
+		cl = h.recreate(p, err.Error())
+	}
+	return cl, path
+}
+
+// register is Ar/Br: the partition is added to a transaction of the producer
+// (its real, current producer id and epoch) and nothing is appended.
+func (h *harness) register(s sym, a applied) {
+	p := a.prod
+	cl, path := h.ready(p)
+	if cl == nil {
+		return
+	}
+	if path != "" {
+		h.st.Recovery[path]++
+	}
+	ctx, cancel := opCtx()
+	pid, epoch, err := cl.ProducerID(ctx)
+	cancel()
+	if err != nil && path != "client-restarted" && path != "" {
+		// the recovered client's producer id is unusable: restart it
+		h.st.Recovery[path]--
+		h.st.Recovery["client-restarted"]++
+		if cl = h.recreate(p, err.Error()); cl == nil {
 			return
 		}
+		ctx, cancel = opCtx()
+		pid, epoch, err = cl.ProducerID(ctx)
+		cancel()
 	}
-	cl := h.prod[p]
+	if err != nil {
+		h.violate("harness:producer-id-failed", "", "%s ProducerID failed: %v", prodName[p], err)
+		return
+	}
+	h.opened[p] = time.Now()
+	if err := h.raw.register(txnID[p], pid, epoch); err != nil {
+		h.violate("harness:register-failed", "", "%s raw AddPartitionsToTxn (pid %d epoch %d) failed: %v", prodName[p], pid, epoch, err)
+		return
+	}
+	h.rawPid[p], h.rawEpoch[p] = pid, epoch
+	h.st.Registered++
+	h.logf("  step %d %s: raw AddPartitionsToTxn v3 (pid %d epoch %d): partition registered, nothing appended", h.step, symName[s], pid, epoch)
+}
+
+// zombie is Az: A, unaware that the broker aborted its transaction and bumped
+// its epoch, produces once more inside what it believes is its transaction.
+// The batch must be fenced; with Produce v12+ the broker has by then opened a
+// transaction for A with the partition registered and no data.
+func (h *harness) zombie(s sym, _ applied) {
+	cl := h.prod[pA]
+	h.stale[pA] = false
+	h.opened[pA] = time.Now()
+	ctx, cancel := opCtx()
+	res := cl.ProduceSync(ctx, &kgo.Record{Value: []byte("zombie")})
+	cancel()
+	for _, r := range res {
+		if r.Err == nil {
+			h.violate("harness:zombie-produce-accepted", "", "A's produce with the epoch the broker fenced at the transaction timeout was accepted at offset %d", r.Record.Offset)
+			return
+		}
+		h.logf("  step %d %s: stale-epoch produce rejected: %v", h.step, symName[s], r.Err)
+	}
+	h.restart[pA] = true // whatever the client does next, the application restarts it
+	h.st.Zombie++
+}
+
+func (h *harness) append(s sym, a applied) {
+	p := a.prod
+	cl, path := h.ready(p)
+	if cl == nil {
+		return
+	}
 	if p != pN && a.begin {
-		if h.stale[p] {
-			// The client still believes it is inside the transaction the
-			// broker aborted. Do what an application does: abort (twice, the
-			// documented retry), and if the client does not come back,
-			// restart it under the same transactional id.
-			h.stale[p] = false
-			path := "abort-ok"
-			ctx, cancel := opCtx()
-			err := cl.EndTransaction(ctx, kgo.TryAbort)
-			cancel()
-			h.logf("    %s: EndTransaction(abort) after the broker-side timeout = %v", prodName[p], err)
-			if err != nil {
-				path = "abort-retry-ok"
-				ctx, cancel = opCtx()
-				err = cl.EndTransaction(ctx, kgo.TryAbort)
-				cancel()
-				h.logf("    %s: second EndTransaction(abort) = %v", prodName[p], err)
+		err := cl.BeginTransaction()
+		if err != nil && path != "" && path != "client-restarted" {
+			h.logf("    %s: BeginTransaction = %v", prodName[p], err)
+			path = "client-restarted"
+			if cl = h.recreate(p, err.Error()); cl == nil {
+				return
 			}
-			if err == nil {
-				err = cl.BeginTransaction()
-				h.logf("    %s: BeginTransaction = %v", prodName[p], err)
-			}
-			if err != nil {
-				path = "client-restarted"
-				if cl = h.recreate(p, err.Error()); cl == nil {
-					return
-				}
-				if err = cl.BeginTransaction(); err != nil {
-					h.infra = fmt.Errorf("%s BeginTransaction on a fresh client: %w", prodName[p], err)
-					return
-				}
-			}
-			h.st.Recovery[path]++
-		} else if err := cl.BeginTransaction(); err != nil {
+			err = cl.BeginTransaction()
+		}
+		if err != nil {
 			h.violate("harness:begin-transaction-failed", "", "%s BeginTransaction failed: %v", prodName[p], err)
 			return
+		}
+		if path != "" {
+			h.st.Recovery[path]++
 		}
 		h.opened[p] = time.Now()
 	}
